@@ -97,6 +97,8 @@ def execute(cfg, timeouts, schedule, only=None):
             if i is None:
                 # environment: the clock moves and somebody looks at the metrics (sweeps everything that has expired)
                 FakeClock.advance(op[1])
+                if op[0] == "tick":
+                    continue          # the clock moves, nobody looks
                 client.get("/full-metrics")
                 continue
             if i not in ids:
@@ -199,6 +201,16 @@ def scripted_cases():
                     schedule += [(1, ('results', False)), (0, ('results', False)), (1, ('end',)), (1, begin[1]), (1, ('step', None)),
                                  (1, ('results', False))]
                     out.append((dict(adapter=adapter, compress=False, batch=False), [{'minutes': 5}, {'minutes': 5}], schedule))
+    # instance 0 (timeout 2 s) is used continuously for longer than its timeout, every gap being shorter than the timeout; then
+    # instance 1 is touched; instance 0 goes on.  The clock moves without anybody sweeping in between.
+    for adapter in (False, True):
+        b0 = ('begin', ('base',), ('s', 'f', 'g'), None)
+        schedule = [(1, b0), (0, b0)]
+        for _ in range(4):
+            schedule += [(0, ('step', None)), (None, ('tick', 1))]
+        schedule += [(1, ('keep',)), (0, ('step', None)), (0, ('results', False)), (1, ('step', None)), (0, ('step', ('base', 'c', 5.0))), (1, ('step', None)),
+                     (0, ('results', True)), (1, ('results', False))]
+        out.append((dict(adapter=adapter, compress=False, batch=False), [{'seconds': 2}, {'minutes': 5}], schedule))
     return out
 
 
